@@ -11,10 +11,14 @@ QS = [0.0, 0.3, 0.5, 0.8, 1.0]
 MODES = ['q', 'a']            # q: vorbis_encode_init_vbr(q); a: ABR vorbis_encode_init(-1, nominal(q), -1)
 # highest frequency any tone / sweep uses: min(0.4 x Nyquist, comfortably below the lowest encoder lowpass of that rate
 # (96 kHz uses the 44.1k lowpass table: 15.1 kHz at q=0)).  Noise additionally stays below 0.3 x Nyquist (in the harness).
-FMAX = {8000: 1600, 22050: 4410, 44100: 8820, 96000: 12000}
+FMAX = {8000: 1600, 22050: 4410, 44100: 8820, 48000: 9600, 96000: 12000}
 # In the 5.1 template (6 channels, 40-50 kHz) channel 5 is the LFE channel: vorbisenc.c low-passes its residue at ~250 Hz
 # by design ("LFE channel; lowpass at ~ 250Hz").  Its content is therefore drawn from the same family with fmax = 200 Hz.
 LFE_FMAX = 200
+# LFE-content slice: 6 channels on the 5.1 template, qualities down to -0.1, LFE tone (amplitude 0.5) at these frequencies, abrupt and faded
+LFE_RATES = [44100, 48000]
+LFE_QS = [-0.1, -0.05, 0.0, 0.3]
+LFE_HZ = [60, 130, 200, 260]
 
 UNIQUE = 1.2   # peak / second-largest-local-maximum of the input autocorrelation needed for a channel to be used for alignment
 APERIODIC = ('b2', 'b5', 'sw', 'nz', 'ck')       # classes with a unique correlation peak by construction -> alignment judged
@@ -92,7 +96,7 @@ def lengths(tier, rate):
 
 
 def is51(ch, rate):
-    return ch == 6 and 40000 <= rate <= 50000
+    return ch == 6 and 40000 <= rate <= 70000   # ve_setup_44_51
 
 
 def mkcase(rate, ch, mode, q, n, sig):
@@ -124,7 +128,6 @@ def judge(m, r):
     d = parse(r)
     v = []
     cls, ch, n = m['cls'], m['ch'], m['n']
-    qi = QS.index(m['q'])
     snr, lag, rat, ids, ira = fl(d, 'snr'), [int(x) for x in d['lag'].split(',')], fl(d, 'rat'), [int(x) for x in d['id'].split(',')], fl(d, 'ira')
     iw = [int(x) for x in d['iw'].split(',')]
     if is51(ch, m['rate']):
@@ -135,7 +138,7 @@ def judge(m, r):
     cplsteps = int(d['cpl'])
     pf = 3.0 if cplsteps >= 1 else 2.0   # lossy channel coupling may rebuild a channel from the magnitudes of its partners
     info = {'pkratio': pko / pki if pki > 0 else 0.0, 'snr': min(snr), 'snrs': snr, 'rat': min(rat), 'cpl': int(d['cpl']), 'sal': int(d['sal']), 'sh': int(d['sh']), 'lg': int(d['lg']),
-            'xin': float(d['xin']), 'idm': float(d['idm']), 'lag_judged': False, 'lag_exact': 0, 'lag_channels': 0, 'lag_channels_ambiguous': 0, 'id_judged': False, 'snr_judged': False}
+            'xin': float(d['xin']), 'idm': float(d['idm']), 'lag_judged': False, 'lag_exact': 0, 'lag_channels': 0, 'lag_channels_ambiguous': 0, 'id_judged': False, 'snr_judged': False, 'lfe_peak_judged': False, 'lfe_pkratio': 0.0, 'bs': d.get('bs', '')}
     if d['fin'] != '1':
         v.append(('nonfinite_sample:%s:%s' % (cls, cfg), 'a decoded sample is NaN/Inf: %s' % m['case']))
     if dec < 0.9 * n:
@@ -143,6 +146,13 @@ def judge(m, r):
         return 'ok', v, info
     if pko > pf * pki + 0.05:
         v.append(('peak_blowup:%s:%s' % (cls, cfg), 'output peak %.4f > %g x input peak %.4f + 0.05: %s' % (pko, pf, pki, m['case'])))
+    if is51(ch, m['rate']):
+        # the LFE channel sits alone in its submap (never coupled): its own output peak against its own input peak, factor 2
+        lo, li_ = float(d['pkc'].split(',')[5].split('@')[0]), fl(d, 'pic')[5]
+        info['lfe_peak_judged'] = True
+        info['lfe_pkratio'] = lo / li_ if li_ > 0 else 0.0
+        if lo > 2.0 * li_ + 0.05:
+            v.append(('lfe_peak_blowup:%s:%s' % (cls, cfg), 'LFE channel output peak %.4f > 2 x its input peak %.4f + 0.05 (at sample %s): %s' % (lo, li_, d['pkc'].split(',')[5].split('@')[1], m['case'])))
     if cls in APERIODIC:
         # a channel is judged iff the autocorrelation of its INPUT has a unique peak (signal property, independent of the codec)
         jc = [c for c in range(len(lag)) if ira[c] >= UNIQUE]
@@ -160,7 +170,7 @@ def judge(m, r):
             v.append(('channel_permuted:%s:%s' % (cls, cfg), 'best-correlated input channel per output channel %s (must be identity), margin %s: %s' % (ids, d['idm'], m['case'])))
     if cls in BANDLIMITED and FLOOR:   # (over-range class t2x: finiteness / peak / identity only)
         info['snr_judged'] = True
-        f = FLOOR[cls][m['mode']][qi]
+        f = FLOOR[cls][m['mode']][QS.index(m['q'])]
         if min(snr) < f:
             v.append(('snr_below_floor:%s:%s' % (cls, cfg), 'SNR %s dB (min %.2f) below floor(%s,%s,q=%g)=%.1f dB: %s' % (d['snr'], min(snr), cls, m['mode'], m['q'], f, m['case'])))
     return 'ok', v, info
@@ -218,6 +228,19 @@ def run(tier):
     # enumeration order: batches = one (length index, class[, rate]) slice over all configurations; only complete batches are run,
     # the deadline is tested between batches (thorough splits by rate so that no batch is long)
     members = []
+    # LFE-content slice (first, so a deadline never cuts it): 5.1 template, including the negative qualities (block sizes 512/4096,
+    # where the LFE residue reaches beyond the LFE floor's own range), LFE tone inside / at the edge of / beyond the LFE floor range
+    batch = []
+    for rate in LFE_RATES:
+        for n in ([int(round(0.3 * rate))] if tier == 'quick' else [int(round(0.3 * rate)), rate + 37]):
+            for mode in MODES:
+                for q in LFE_QS:
+                    for hz in LFE_HZ:
+                        for fd in (0, 1):
+                            m = {'cls': 'lfe', 'rate': rate, 'ch': 6, 'mode': mode, 'q': q, 'n': n, 'sig': 'l:%d:%d' % (hz, fd)}
+                            m['case'] = mkcase(rate, 6, mode, q, n, m['sig'])
+                            batch.append(m)
+    members.append(('lfe', batch))
     for li in range(len(lengths(tier, 8000))):
         fam = family(tier, li)
         for cls in ('ck', 'sw', 'nz', 't2d', 't2x', 't2', 'b2', 'b5', 't5'):
@@ -239,7 +262,8 @@ def run(tier):
     passed, skipped, nviol = set(), {}, 0
     stats = {'members': total, 'executed': 0, 'lag_judged': 0, 'lag_channels_judged': 0, 'lag_channels_judged_with_zero_tolerance': 0, 'lag_channels_ambiguous_not_judged': 0, 'lag_judged_by_class': {}, 'min_ratio': 1e9, 'id_judged': 0, 'id_ge3ch': 0, 'id_coupled_stereo': 0,
              'id_coupled_51': 0, 'snr_judged': 0, 'long_to_short_members': 0, 'short_block_members': 0, 'max_input_crosscorr': 0.0, 'min_id_margin': 1e9,
-             'max_peak_ratio_uncoupled': 0.0, 'max_peak_ratio_coupled': 0.0}
+             'max_peak_ratio_uncoupled': 0.0, 'max_peak_ratio_coupled': 0.0,
+             'lfe_peak_judged': 0, 'max_lfe_peak_ratio': 0.0, 'lfe_content_members_negative_q_blocks_512_4096': 0}
     meas = {}     # (cls, mode, qi) -> min snr ; also per rate
     series = {}   # (cls, sig, ch, rate, mode, n) -> {qi: snr}
     done_batches, cut = [], []
@@ -296,6 +320,10 @@ def run(tier):
                 stats['max_input_crosscorr'] = max(stats['max_input_crosscorr'], info['xin'])
                 stats['min_id_margin'] = min(stats['min_id_margin'], info['idm'])
             stats['snr_judged'] += info['snr_judged']
+            if info['lfe_peak_judged']:
+                stats['lfe_peak_judged'] += 1
+                stats['max_lfe_peak_ratio'] = max(stats['max_lfe_peak_ratio'], round(info['lfe_pkratio'], 4))
+                stats['lfe_content_members_negative_q_blocks_512_4096'] += (m['cls'] == 'lfe' and m['q'] < 0 and info['bs'] == '512/4096')
             stats['long_to_short_members'] += info['sal'] > 0
             stats['short_block_members'] += (info['sh'] > 0 and info['lg'] > 0)
             if rawf:
@@ -390,8 +418,8 @@ def run(tier):
         'every member of the finite family {two-tone chords: all pairs of a frequency grid, each with equal amplitudes, with a dominant near-full-scale tone (:d) and 4x over-range (:x); five-tone chords: all 5-subsets of a grid; '
         'Hann-windowed chord bursts; linear sweeps: all ordered pairs of band edges; band-limited LCG noise (sums of 32-128 random-phase sinusoids below 0.3 Nyquist); aperiodic LCG click trains (1- and 5-sample clicks)} '
         f'with per-channel distinct content x channels {CHS} x rates {RATES} x quality {QS} x {{VBR, ABR at the nominal bitrate of that quality}} x lengths '
-        f'({"0.3 s" if tier == "quick" else "0.3 s with the dense grids; 0.17 s (odd) and 0.45 s+37 with the quick grids"}); tones/sweeps below min(0.4 Nyquist, encoder lowpass), LFE channel of the 5.1 template below 200 Hz. '
-        'Judged on every member: all samples finite; output peak <= 2 x input peak + 0.05 (3 x when the mode uses lossy channel coupling); for >=2 channels the best lag-0-correlated input channel of every output channel is itself; '
+        f'({"0.3 s" if tier == "quick" else "0.3 s with the dense grids; 0.17 s (odd) and 0.45 s+37 with the quick grids"}); tones/sweeps below min(0.4 Nyquist, encoder lowpass), LFE channel of the 5.1 template below 200 Hz; plus an LFE-content slice: 6 channels at 44100/48000 Hz x quality (-0.1,-0.05,0,0.3) x (VBR, ABR) x LFE tone (0.5) at (60,130,200,260) Hz x (abrupt, faded), other channels two-tone chords. '
+        'Judged on every member: all samples finite; output peak <= 2 x input peak + 0.05 (3 x when the mode uses lossy channel coupling), and on the 5.1 template additionally LFE output peak <= 2 x LFE input peak + 0.05; for >=2 channels the best lag-0-correlated input channel of every output channel is itself; '
         'SNR >= floor(class, mode, q) for the in-range band-limited classes (regression table, non-decreasing in q). ALIGNMENT (arg max over ALL lags -4096..4096 of the input/output cross-correlation is 0) is judged only on members with '
         'aperiodic structure (click trains, sweeps, noise, Hann-windowed bursts) and there only on channels whose INPUT autocorrelation has a unique peak (peak / second local maximum >= %g, a property of the signal alone); '
         'lags inside the flat top of the input autocorrelation (>= 98%% of its peak; 0 for all broadband members) count as 0. Stationary chords have a periodic, ambiguous correlation peak and are NOT used for alignment. '
@@ -403,7 +431,7 @@ def run(tier):
         'the peak factor is 2 (+0.05) without channel coupling and 3 with it: point/lossless coupling rebuilds a channel from its partners, measured maximum 2.7 on legitimately coupled q=0 sweeps',
         'channel identity is judged as "arg max over input channels of the normalised lag-0 correlation is the channel itself", not as a separation bound (lossy coupling may legitimately leak between channels)',
         'ABR members exist only where the bitrate-managed set-up succeeds (the 50-200 kHz template has no bitrate map: ABR at 96000 Hz is not a successfully configured setting and is skipped)',
-        'in the 5.1 template (6 ch, 40-50 kHz) channel 5 is the LFE channel, low-passed at ~250 Hz by design; its test content stays below 200 Hz and it is excluded from the lag and SNR predicates',
+        'in the 5.1 template (6 ch, 40-50 kHz) channel 5 is the LFE channel, low-passed at ~250 Hz by design; its test content stays below 200 Hz (up to 260 Hz in the LFE-content slice) and it is excluded from the lag and SNR predicates but not from finiteness, peak (global and its own) and identity',
         'over-range (:x) members are judged for finiteness, peak, identity only (the residue books clip beyond their range by design)',
         'input and output are compared over the decoded range (the exact sample count is property C04)']
     if not measure:
@@ -411,6 +439,7 @@ def run(tier):
     chk.guard(stats['lag_judged'] >= 1000 and (len(stats['lag_judged_by_class']) >= 4 or cut), 'alignment judged on >=1000 members from >=4 signal classes (fewer classes only when the deadline cut the run), each judged channel having a unique input autocorrelation peak (peak/second-peak >= %g)' % UNIQUE)
     chk.guard(stats['id_ge3ch'] >= 200 and stats['id_coupled_stereo'] >= 50 and stats['id_coupled_51'] >= 10, 'channel identity judged on >=200 members with >=3 channels, >=50 coupled-stereo members and >=10 coupled 5.1 members')
     chk.guard(stats['max_input_crosscorr'] < 0.5, 'input channels carry distinct content (max normalised cross-correlation between input channels < 0.5)')
+    chk.guard(stats['lfe_content_members_negative_q_blocks_512_4096'] >= 32, '>=32 LFE-content members ran at negative quality with block sizes 512/4096 (LFE residue beyond the LFE floor range) and had their LFE peak judged')
     chk.guard(stats['long_to_short_members'] >= 100, '>=100 members contained a long->short block transition')
     chk.guard(all(k[0] == 96000 and k[1] == 'a' for k in skipped), 'only ABR at 96000 Hz was refused by the encoder set-up')
     chk.guard(len(passed) >= 100 or nviol > 0, 'at least 100 distinct configurations passed')
